@@ -80,8 +80,9 @@ Proof.
 Qed.
 
 Section Proofs.
+  Variable pk : prod_kind.
   Variable fsem : fnid -> list Z -> Z.
-  Notation FX := expected_facts.
+  Notation FX := (expected_facts pk).
 
   Lemma create_cache_apv_keys m cur c :
     create_cache fsem m cur = Some c ->
@@ -146,7 +147,7 @@ Section Proofs.
 
   Lemma view_selected_spec m r pn tbs st f n conc :
     wf_res r pn -> evaluable fsem m pn -> canon_tables fsem m r = Ok tbs -> good_state pn tbs st ->
-    fst (view_selected fsem FX m r f n conc st) = spec_selected fsem m r pn f n conc
+    fst (view_selected fsem FX m r f n conc st) = spec_selected pk fsem m r pn f n conc
     /\ good_state pn tbs (snd (view_selected fsem FX m r f n conc st)).
   Proof.
     intros Hwf Hev Hc Hg. unfold view_selected, spec_selected.
@@ -174,7 +175,7 @@ Section Proofs.
 
   Lemma view_rhs_spec m r pn tbs st n conc :
     wf_res r pn -> canon_tables fsem m r = Ok tbs -> good_state pn tbs st ->
-    fst (view_rhs fsem FX m r n conc st) = spec_rhs fsem m r n conc
+    fst (view_rhs fsem FX m r n conc st) = spec_rhs pk fsem m r n conc
     /\ good_state pn tbs (snd (view_rhs fsem FX m r n conc st)).
   Proof.
     intros Hwf Hc Hg. unfold view_rhs, spec_rhs.
@@ -209,14 +210,14 @@ Section Proofs.
     change (last (x :: y :: l) d) with (last (y :: l) d). apply IH; [exact (Forall_inv_tail H)|discriminate].
   Qed.
 
-  Lemma view_prodcons_spec m r pn tbs st neg v scaled n conc :
+  Lemma view_prodcons_first_spec m r pn tbs st neg v scaled n conc :
     wf_res r pn -> evaluable fsem m pn -> canon_tables fsem m r = Ok tbs -> good_state pn tbs st ->
-    fst (view_prodcons fsem FX m r neg v scaled n conc st) = spec_prodcons fsem m r pn neg v scaled n conc
-    /\ good_state pn tbs (snd (view_prodcons fsem FX m r neg v scaled n conc st)).
+    fst (view_prodcons_first fsem FX m r neg v scaled n conc st) = spec_prodcons_first pk fsem m r pn neg v scaled n conc
+    /\ good_state pn tbs (snd (view_prodcons_first fsem FX m r neg v scaled n conc st)).
   Proof.
     intros Hwf Hev Hc Hg. pose proof Hwf as [Hnd [Hlen [Hne Hall]]].
     pose proof (Forall_last _ _ [] Hall Hne) as Hlast. cbn beta in Hlast.
-    unfold view_prodcons, spec_prodcons.
+    unfold view_prodcons_first, spec_prodcons_first.
     destruct (r_pars r) as [|p0 ps] eqn:Ep; [contradiction|].
     pose proof (Forall_inv Hall) as Hp0. cbn beta in Hp0. destruct Hg as [Hk Hraw].
     rewrite (apply_params_same p0 (s_cur st)); [|rewrite Hp0; exact Hnd|rewrite Hp0; exact Hk].
@@ -227,7 +228,7 @@ Section Proofs.
     destruct (view_selected_spec m r pn tbs (mkSt p0 (s_raw st)) (flags_fluxes true) n false Hwf Hev Hc G0) as [E1 G1].
     destruct (view_selected fsem FX m r (flags_fluxes true) n false (mkSt p0 (s_raw st))) as [o st1].
     cbn [fst snd] in E1, G1. rewrite E1.
-    destruct (spec_selected fsem m r pn (flags_fluxes true) n false) as [f0|fl|d0| |e0|]; cbn [fst snd]; try (split; auto; fail).
+    destruct (spec_selected pk fsem m r pn (flags_fluxes true) n false) as [f0|fl|?|?|d0| |e0|]; cbn [fst snd]; try (split; auto; fail).
     destruct (map_res (select_cols lookupsQ (signed_names neg sto)) fl) as [fl1|e1]; [|cbn [fst snd]; split; auto].
     destruct G1 as [K1 R1].
     pose proof Hnd as HndL. rewrite <- Hlast in HndL.
@@ -243,9 +244,63 @@ Section Proofs.
       destruct conc; [destruct (concat0 fl1)|]; cbn [fst snd]; split; auto.
   Qed.
 
+  (** the repaired bodies: the view is the property's rule, from every reachable state *)
+  Lemma view_prodcons_rows_spec m r pn tbs st neg v scaled n conc :
+    wf_res r pn -> evaluable fsem m pn -> canon_tables fsem m r = Ok tbs -> good_state pn tbs st ->
+    fst (view_prodcons_rows fsem FX m r neg v scaled n conc st) = spec_prodcons_rows pk fsem m r pn neg v scaled n conc
+    /\ good_state pn tbs (snd (view_prodcons_rows fsem FX m r neg v scaled n conc st)).
+  Proof.
+    intros Hwf Hev Hc Hg. pose proof Hwf as [Hnd [Hlen [Hne Hall]]].
+    pose proof (Forall_last _ _ [] Hall Hne) as Hlast. cbn beta in Hlast.
+    unfold view_prodcons_rows, spec_prodcons_rows.
+    destruct (factors_of m v) as [|f0 fs0] eqn:Ef; [cbn [fst snd]; split; auto|].
+    destruct (compute_args_good m r pn tbs st Hwf Hc Hg) as [cur' [E K]]. rewrite E, Hc.
+    destruct (map_res (coef_rows fsem neg (f0 :: fs0)) tbs) as [coefs|e]; [|cbn [fst snd]; split; [reflexivity|split; [exact K|right; reflexivity]]].
+    assert (G1 : good_state pn tbs (mkSt cur' tbs)) by (split; [exact K|right; reflexivity]).
+    destruct (view_selected_spec m r pn tbs (mkSt cur' tbs) (flags_fluxes true) n false Hwf Hev Hc G1) as [E1 G2].
+    destruct (view_selected fsem FX m r (flags_fluxes true) n false (mkSt cur' tbs)) as [o st2].
+    cbn [fst snd] in E1, G2. rewrite E1.
+    destruct (spec_selected pk fsem m r pn (flags_fluxes true) n false) as [fa|fl|?|?|?| |e0|]; cbn [fst snd]; try (split; auto; fail).
+    destruct (mask_all scaled (kept (f0 :: fs0) coefs) fl coefs) as [ml|e1]; [|cbn [fst snd]; split; auto].
+    destruct (r_pars r) as [|p0 ps] eqn:Ep; [contradiction|].
+    destruct G2 as [K2 R2]. pose proof Hnd as HndL. rewrite <- Hlast in HndL.
+    rewrite (apply_params_same (last (p0 :: ps) []) (s_cur st2)); [|exact HndL|exact (eq_trans K2 (eq_sym Hlast))].
+    cbn [negb]. assert (G3 : good_state pn tbs (mkSt (last (p0 :: ps) []) (s_raw st2))) by (split; [exact Hlast|exact R2]).
+    destruct conc; [destruct (mconcat0 ml)|]; cbn [fst snd]; split; auto.
+  Qed.
+
+  Lemma view_prodcons_spec m r pn tbs st neg v scaled n conc :
+    wf_res r pn -> evaluable fsem m pn -> canon_tables fsem m r = Ok tbs -> good_state pn tbs st ->
+    fst (view_prodcons fsem FX m r neg v scaled n conc st) = spec_prodcons pk fsem m r pn neg v scaled n conc
+    /\ good_state pn tbs (snd (view_prodcons fsem FX m r neg v scaled n conc st)).
+  Proof.
+    intros Hwf Hev Hc Hg.
+    assert (H : forall k : prod_kind,
+      fst (match k with
+           | PKFirst => view_prodcons_first fsem FX m r neg v scaled n conc st
+           | PKRows => view_prodcons_rows fsem FX m r neg v scaled n conc st
+           | PKUnknown => (VOther, st)
+           end)
+      = match k with
+        | PKFirst => spec_prodcons_first pk fsem m r pn neg v scaled n conc
+        | PKRows => spec_prodcons_rows pk fsem m r pn neg v scaled n conc
+        | PKUnknown => VOther
+        end
+      /\ good_state pn tbs (snd (match k with
+                                 | PKFirst => view_prodcons_first fsem FX m r neg v scaled n conc st
+                                 | PKRows => view_prodcons_rows fsem FX m r neg v scaled n conc st
+                                 | PKUnknown => (VOther, st)
+                                 end))).
+    { intros k. destruct k.
+      - apply view_prodcons_first_spec; assumption.
+      - apply view_prodcons_rows_spec; assumption.
+      - cbn [fst snd]. split; [reflexivity|exact Hg]. }
+    exact (H pk).
+  Qed.
+
   Lemma view_vars_spec m r pn tbs st dv ro sv conc n :
     wf_res r pn -> evaluable fsem m pn -> canon_tables fsem m r = Ok tbs -> good_state pn tbs st ->
-    fst (view_vars fsem FX m r dv ro sv conc n st) = spec_vars fsem m r pn dv ro sv conc n
+    fst (view_vars fsem FX m r dv ro sv conc n st) = spec_vars pk fsem m r pn dv ro sv conc n
     /\ good_state pn tbs (snd (view_vars fsem FX m r dv ro sv conc n st)).
   Proof.
     intros Hwf Hev Hc Hg. unfold view_vars, spec_vars.
@@ -269,7 +324,7 @@ Section Proofs.
       state stays reachable *)
   Lemma run_op_spec m r pn tbs o st :
     wf_res r pn -> evaluable fsem m pn -> canon_tables fsem m r = Ok tbs -> good_state pn tbs st ->
-    (is_view o = true -> fst (run_op fsem FX m r o st) = spec_op fsem m r pn o)
+    (is_view o = true -> fst (run_op fsem FX m r o st) = spec_op pk fsem m r pn o)
     /\ good_state pn tbs (snd (run_op fsem FX m r o st)).
   Proof.
     intros Hwf Hev Hc Hg. destruct o; cbn [run_op spec_op is_view].
@@ -280,16 +335,16 @@ Section Proofs.
     - destruct (view_selected_spec m r pn tbs st (flags_fluxes true) NNone true Hwf Hev Hc Hg); split; auto.
     - destruct (view_vars_spec m r pn tbs st true true true true NNone Hwf Hev Hc Hg) as [E1 G1].
       destruct (view_vars fsem FX m r true true true true NNone st) as [a st1]. cbn [fst snd] in E1, G1. rewrite E1.
-      destruct (spec_vars fsem m r pn true true true true NNone) as [fa|?|?| |?|]; cbn [fst snd]; try (split; auto; fail).
+      destruct (spec_vars pk fsem m r pn true true true true NNone) as [fa|?|?|?|?| |?|]; cbn [fst snd]; try (split; auto; fail).
       destruct (view_selected_spec m r pn tbs st1 (flags_fluxes true) NNone true Hwf Hev Hc G1) as [E2 G2].
       destruct (view_selected fsem FX m r (flags_fluxes true) NNone true st1) as [b st2]. cbn [fst snd] in E2, G2. rewrite E2.
-      destruct (spec_selected fsem m r pn (flags_fluxes true) NNone true); cbn [fst snd]; split; auto.
+      destruct (spec_selected pk fsem m r pn (flags_fluxes true) NNone true); cbn [fst snd]; split; auto.
     - destruct (view_rhs_spec m r pn tbs st n conc Hwf Hc Hg); split; auto.
     - destruct (view_prodcons_spec m r pn tbs st false v scaled n conc Hwf Hev Hc Hg); split; auto.
     - destruct (view_prodcons_spec m r pn tbs st true v scaled n conc Hwf Hev Hc Hg); split; auto.
     - destruct (view_vars_spec m r pn tbs st false false false true NNone Hwf Hev Hc Hg) as [E1 G1].
       destruct (view_vars fsem FX m r false false false true NNone st) as [a st1]. cbn [fst snd] in E1, G1. rewrite E1.
-      destruct (spec_vars fsem m r pn false false false true NNone) as [fa|?|?| |?|]; cbn [fst snd]; try (split; auto; fail).
+      destruct (spec_vars pk fsem m r pn false false false true NNone) as [fa|?|?|?|?| |?|]; cbn [fst snd]; try (split; auto; fail).
       destruct (rev (f_rows fa)); cbn [fst snd]; split; auto.
     - destruct Hg as [Hk Hraw]. destruct (lookup k (s_cur st)) eqn:E; cbn [fst snd].
       + split.
@@ -306,7 +361,7 @@ Section Proofs.
   Lemma run_ops_nth m r pn tbs :
     wf_res r pn -> evaluable fsem m pn -> canon_tables fsem m r = Ok tbs ->
     forall os st i o, good_state pn tbs st -> nth_error os i = Some o -> is_view o = true ->
-    nth_error (run_ops fsem FX m r os st) i = Some (spec_op fsem m r pn o).
+    nth_error (run_ops fsem FX m r os st) i = Some (spec_op pk fsem m r pn o).
   Proof.
     intros Hwf Hev Hc. induction os as [|o' os IH]; intros st i o Hg Hn Hv.
     - destruct i; discriminate.
@@ -369,21 +424,21 @@ Section Proofs.
   Proof. unfold adjust. destruct (normalise FX data n); reflexivity. Qed.
 
   Lemma spec_selected_conc m r pn f n d :
-    spec_selected fsem m r pn f n false = VFrames d ->
-    spec_selected fsem m r pn f n true = match concat0 d with Ok x => VFrame x | Err e => VErr e end.
+    spec_selected pk fsem m r pn f n false = VFrames d ->
+    spec_selected pk fsem m r pn f n true = match concat0 d with Ok x => VFrame x | Err e => VErr e end.
   Proof.
     unfold spec_selected. destruct (canon_tables fsem m r) as [a|]; [|discriminate].
     destruct (map_res (select_cols lookups (view_names m pn f)) a); [|discriminate]. apply adjust_conc.
   Qed.
   Lemma spec_vars_conc m r pn dv ro sv n d :
-    spec_vars fsem m r pn dv ro sv false n = VFrames d ->
-    spec_vars fsem m r pn dv ro sv true n = match concat0 d with Ok x => VFrame x | Err e => VErr e end.
+    spec_vars pk fsem m r pn dv ro sv false n = VFrames d ->
+    spec_vars pk fsem m r pn dv ro sv true n = match concat0 d with Ok x => VFrame x | Err e => VErr e end.
   Proof.
     unfold spec_vars. destruct (negb (dv || ro || sv)); [apply adjust_conc|apply spec_selected_conc].
   Qed.
   Lemma spec_rhs_conc m r n d :
-    spec_rhs fsem m r n false = VFrames d ->
-    spec_rhs fsem m r n true = match concat0 d with Ok x => VFrame x | Err e => VErr e end.
+    spec_rhs pk fsem m r n false = VFrames d ->
+    spec_rhs pk fsem m r n true = match concat0 d with Ok x => VFrame x | Err e => VErr e end.
   Proof.
     unfold spec_rhs. destruct (canon_tables fsem m r) as [a|]; [|discriminate].
     destruct (spec_rhs_list fsem m a (r_pars r)); [|discriminate]. apply adjust_conc.
@@ -404,9 +459,9 @@ Section Proofs.
                  fst (run_op fsem FX m r (ORhs n true) st2) = stacked d).
   Proof.
     intros Hwf Hev Hc G1 G2. unfold stacked.
-    assert (S1 : forall o, is_view o = true -> fst (run_op fsem FX m r o st1) = spec_op fsem m r pn o)
+    assert (S1 : forall o, is_view o = true -> fst (run_op fsem FX m r o st1) = spec_op pk fsem m r pn o)
       by (intros o; apply (run_op_spec m r pn tbs o st1 Hwf Hev Hc G1)).
-    assert (S2 : forall o, is_view o = true -> fst (run_op fsem FX m r o st2) = spec_op fsem m r pn o)
+    assert (S2 : forall o, is_view o = true -> fst (run_op fsem FX m r o st2) = spec_op pk fsem m r pn o)
       by (intros o; apply (run_op_spec m r pn tbs o st2 Hwf Hev Hc G2)).
     repeat split; intros.
     - rewrite S2 by reflexivity. rewrite S1 in H by reflexivity. apply spec_selected_conc. exact H.
@@ -419,8 +474,8 @@ Section Proofs.
     match normalise FX data n with Ok d => VFrames d | Err e => VErr e end.
 
   Lemma spec_selected_norm m r pn f n data :
-    spec_selected fsem m r pn f NNone false = VFrames data ->
-    spec_selected fsem m r pn f n false = normalised data n.
+    spec_selected pk fsem m r pn f NNone false = VFrames data ->
+    spec_selected pk fsem m r pn f n false = normalised data n.
   Proof.
     unfold spec_selected, normalised. destruct (canon_tables fsem m r) as [a|]; [|discriminate].
     destruct (map_res (select_cols lookups (view_names m pn f)) a) as [l|]; [|discriminate].
@@ -428,14 +483,14 @@ Section Proofs.
     injection H as <-. apply adjust_norm.
   Qed.
   Lemma spec_vars_norm m r pn dv ro sv n data :
-    spec_vars fsem m r pn dv ro sv false NNone = VFrames data ->
-    spec_vars fsem m r pn dv ro sv false n = normalised data n.
+    spec_vars pk fsem m r pn dv ro sv false NNone = VFrames data ->
+    spec_vars pk fsem m r pn dv ro sv false n = normalised data n.
   Proof.
     unfold spec_vars. destruct (negb (dv || ro || sv)); [|apply spec_selected_norm].
     intro H. unfold adjust in H. cbn [normalise] in H. injection H as <-. apply adjust_norm.
   Qed.
   Lemma spec_rhs_norm m r n data :
-    spec_rhs fsem m r NNone false = VFrames data -> spec_rhs fsem m r n false = normalised data n.
+    spec_rhs pk fsem m r NNone false = VFrames data -> spec_rhs pk fsem m r n false = normalised data n.
   Proof.
     unfold spec_rhs, normalised. destruct (canon_tables fsem m r) as [a|]; [|discriminate].
     destruct (spec_rhs_list fsem m a (r_pars r)) as [l|]; [|discriminate].
@@ -456,9 +511,9 @@ Section Proofs.
                  fst (run_op fsem FX m r (ORhs n false) st2) = normalised data n).
   Proof.
     intros Hwf Hev Hc G1 G2.
-    assert (S1 : forall o, is_view o = true -> fst (run_op fsem FX m r o st1) = spec_op fsem m r pn o)
+    assert (S1 : forall o, is_view o = true -> fst (run_op fsem FX m r o st1) = spec_op pk fsem m r pn o)
       by (intros o; apply (run_op_spec m r pn tbs o st1 Hwf Hev Hc G1)).
-    assert (S2 : forall o, is_view o = true -> fst (run_op fsem FX m r o st2) = spec_op fsem m r pn o)
+    assert (S2 : forall o, is_view o = true -> fst (run_op fsem FX m r o st2) = spec_op pk fsem m r pn o)
       by (intros o; apply (run_op_spec m r pn tbs o st2 Hwf Hev Hc G2)).
     repeat split; intros.
     - rewrite S2 by reflexivity. rewrite S1 in H by reflexivity. apply spec_selected_norm. exact H.
@@ -470,21 +525,21 @@ Section Proofs.
   Lemma prodcons_is_spec m r pn tbs st (neg : bool) v scaled n conc :
     wf_res r pn -> evaluable fsem m pn -> canon_tables fsem m r = Ok tbs -> good_state pn tbs st ->
     fst (run_op fsem FX m r (if neg then OConsumers v scaled n conc else OProducers v scaled n conc) st)
-    = spec_prodcons fsem m r pn neg v scaled n conc.
+    = spec_prodcons pk fsem m r pn neg v scaled n conc.
   Proof.
     intros Hwf Hev Hc Hg. destruct neg; cbn [run_op]; apply (view_prodcons_spec m r pn tbs); assumption.
   Qed.
 End Proofs.
 
 (** * what [normalise] computes, branch by branch (fixed per-row branch) *)
-Lemma normalise_scalar data q :
+Lemma normalise_scalar pk data q :
   is_zero q = false ->
-  normalise expected_facts data (NScalar q) = Ok (map (fun f => div_frame f q) data).
+  normalise (expected_facts pk) data (NScalar q) = Ok (map (fun f => div_frame f q) data).
 Proof. intro H. cbn [normalise]. rewrite H. reflexivity. Qed.
 
-Lemma normalise_per_segment data l :
+Lemma normalise_per_segment pk data l :
   existsb is_zero l = false -> length l = length data ->
-  normalise expected_facts data (NList l) = Ok (map (fun fq => div_frame (fst fq) (snd fq)) (combine data l)).
+  normalise (expected_facts pk) data (NList l) = Ok (map (fun fq => div_frame (fst fq) (snd fq)) (combine data l)).
 Proof. intros H Hl. cbn [normalise]. rewrite H, Hl, Nat.eqb_refl. reflexivity. Qed.
 
 Lemma norm_rows_grouped : forall data qss,
@@ -497,13 +552,13 @@ Proof.
   rewrite skipn_app, Nat.sub_diag, skipn_all, skipn_O. cbn [app]. rewrite IH. reflexivity.
 Qed.
 
-Lemma normalise_per_row data qss :
+Lemma normalise_per_row pk data qss :
   existsb is_zero (concat qss) = false -> length (concat qss) <> length data ->
   Forall2 (fun f qs => length qs = length (f_rows f)) data qss ->
-  normalise expected_facts data (NList (concat qss))
+  normalise (expected_facts pk) data (NList (concat qss))
   = Ok (map (fun fq => div_rows (fst fq) (snd fq)) (combine data qss)).
 Proof.
   intros H Hne Hf. cbn [normalise]. rewrite H.
   destruct (Nat.eqb_spec (length (concat qss)) (length data)) as [E|_]; [contradiction|].
-  change (rf_norm_rows expected_facts) with NRFixed. cbn match. apply norm_rows_grouped. exact Hf.
+  change (rf_norm_rows (expected_facts pk)) with NRFixed. cbn match. apply norm_rows_grouped. exact Hf.
 Qed.
